@@ -635,7 +635,7 @@ func main() {
 			o.Count("case:decoder")
 		default:
 			longCase = f.Tier == "thorough" && k%12 == 5
-			w.setMode([]mpt.TrieMode{mpt.ModeAll, mpt.ModeLatest, mpt.ModeGC}[(k/2)%3])
+			w.setMode([]mpt.TrieMode{mpt.ModeAll, mpt.ModeLatest, mpt.ModeGC}[(k/7)%3])
 			genCase(w)
 			longCase = false
 			o.Count("case:ops")
